@@ -579,13 +579,19 @@ class World:
                 out.append(r)
                 continue
             s0, seq = r.st, r.val
-            if not (seq.kind == 'ref' and isinstance(s0.node(seq), Arr)):
-                raise EngineError('%s:%d: comprehension over %s' % (eng.rel, e.lineno, seq.kind))
-            n = s0.node(seq)
             k = fresh('ck', I)
             sk = s0.copy()
             sk.env = dict(sk.env)
-            sk.env[g.target.id] = eng.wrap(n.elem, n.a[k])
+            if seq.kind == 'ref' and isinstance(s0.node(seq), Arr):
+                n = s0.node(seq)
+                sk.env[g.target.id] = eng.wrap(n.elem, n.a[k])
+            elif hasattr(seq, 'sv_iter'):
+                # an extension value that knows how it is iterated (position lo + k of its own sequence)
+                lo_, hi_, elem_ = seq.sv_iter(eng, s0, e)
+                n = Arr('val', None, hi_ - lo_, 'list')
+                sk.env[g.target.id] = elem_(sk, lo_ + k)
+            else:
+                raise EngineError('%s:%d: comprehension over %s' % (eng.rel, e.lineno, seq.kind))
             sk.assume(0 <= k, k < n.n)
             base_len = len(sk.pc)
             heap0 = dict(sk.heap)
@@ -883,6 +889,14 @@ class World:
             a2 = fresh('extended', n.a.sort())
             st.assume(z3.ForAll([k], a2[k] == z3.If(k < n.n, n.a[k], other.a[k - n.n]), patterns=[a2[k]]))
             st.setnode(recv, n.replace(a=a2, n=n.n + other.n))
+            return [Result(st, NONE)]
+        if name == 'append' and n.flavour == 'list' and len(args) == 1:
+            v = args[0]
+            if v.kind != n.elem and not (n.elem == 'val'):
+                raise EngineError('%s:%d: append of %s to a list of %s' % (eng.rel, node.lineno, v.kind, n.elem))
+            st = st.copy()
+            t = self.to_val(eng, v) if n.elem == 'val' else v.term
+            st.setnode(recv, n.replace(a=z3.Store(n.a, n.n, t), n=n.n + 1))
             return [Result(st, NONE)]
         raise EngineError('%s:%d: array/list method %s' % (eng.rel, node.lineno, name))
 
